@@ -14,21 +14,56 @@ CHUNK = 20000  # events validated per round of 16 TLC processes
 
 
 def validate_events(run, events, want, stage):
-    """Validate a recorded run (possibly in several rounds) and add the verdicts."""
-    traces = tlc.split_traces(events)
-    cur, size = [], 0
-    rounds = []
-    for t in traces:
-        if size + len(t) > CHUNK and cur:
+    """Queue a recorded run for validation.  All queued runs of a check are validated together by flush()
+    (one round of 16 TLC processes per CHUNK events instead of one round per stage)."""
+    if not hasattr(run, "queue"):
+        run.queue = []
+        run.queue_want = set()
+        run.tid_base = 0
+    # make trace ids unique across stages
+    tids = {}
+    out = []
+    for ev in events:
+        t = ev["tid"]
+        if t not in tids:
+            run.tid_base += 1
+            tids[t] = run.tid_base
+        e2 = dict(ev)
+        e2["tid"] = tids[t]
+        e2["_stage"] = stage
+        out.append(e2)
+    run.queue.append((stage, out))
+    run.queue_want |= set(want)
+
+
+def flush(run):
+    """Validate everything queued, then check the deferred coverage requirements."""
+    queue = getattr(run, "queue", [])
+    if queue:
+        events = [e for (_s, evs) in queue for e in evs]
+        traces = tlc.split_traces(events)
+        cur, size = [], 0
+        rounds = []
+        for t in traces:
+            if size + len(t) > CHUNK and cur:
+                rounds.append(cur)
+                cur, size = [], 0
+            cur.extend(t)
+            size += len(t)
+        if cur:
             rounds.append(cur)
-            cur, size = [], 0
-        cur.extend(t)
-        size += len(t)
-    if cur:
-        rounds.append(cur)
-    for k, evs in enumerate(rounds):
-        res = tlc.validate(evs, want, run.wd)
-        run.add_trace_results(evs, res, "%s#%d" % (stage, k) if len(rounds) > 1 else stage)
+        for k, evs in enumerate(rounds):
+            res = tlc.validate(evs, run.queue_want, run.wd)
+            run.add_trace_results(evs, res, "validation-round-%d" % k)
+        counts = {}
+        for (st, evs) in queue:
+            counts[st] = sum(1 for e in evs if e["op"] != "reset")
+        run.stage_info.append({"recorded_events_per_stage": counts})
+        run.queue = []
+    for needed, stage in getattr(run, "deferred_classes", []):
+        missing = [c for c in needed if run.class_counts.get(c, 0) == 0]
+        if missing:
+            raise MachineryError("vacuous coverage in stage %s: classes never exercised: %s" % (stage, missing))
 
 
 def campaign(run, stage, want, gen):
@@ -103,6 +138,8 @@ def plan_C03(run):
     n = q(run, 300, 6000)
     # design level: the library's outcome pipeline equals the rule for every tagged vector up to length 3 (quick) or 5 (thorough)
     mc.outcome(run, q(run, 3, 5))
+    # symbolic, all integer rank values (not only the ten tagged values of MC_Outcome): Apalache, N teams
+    mc.apalache_outcome(run, q(run, [2, 3], [2, 3, 4, 5]))
     # every rank / score vector over mixed values, enumerated by TLC and replayed (C01's comparison then ties each to the rule)
     mc.lattice(run, "encodings", ALL_KINDS, ["default"], 3, q(run, 2, 3), style="encodings", want={"C03"}, group_orders="C03",
                invariants=mc.INV_ALL + ["Inv_C03"])
@@ -197,6 +234,7 @@ def plan_C11(run):
     n = q(run, 800, 20000)
     campaign(run, "predict-campaign", {"C11"}, lambda s, r: drivers.predict_campaign(s, r, n))
     run.require_classes(PRED_CLASSES, "predict-campaign")
+    campaign(run, "near-ties", {"C11"}, lambda s, r: drivers.near_tie_ranks(s, r, q(run, 4000, 60000)))
     m = q(run, 200, 4000)
     campaign(run, "rank-plus-draw", {"C11"}, lambda s, r: drivers.predict_relations(s, r, m))
     run.require_classes(["group:C11:rank_draw"], "relations")
@@ -495,6 +533,9 @@ def threads_stage(run, count, exhaustive_pairs=None):
     sess = Session()
     log = []
     drivers.thread_executions(sess, run.sub_rng("threads"), count, log, exhaustive_pairs=exhaustive_pairs)
+    if not exhaustive_pairs:
+        # pre-emption at every library function call (not only model accesses): every switch point of one call
+        drivers.thread_executions_fine(sess, run.sub_rng("threads-fine"), q(run, 2, 15), log, stride=q(run, 2, 1))
     validate_thread_log(run, log, "thread-events")
     validate_events(run, sched.regroup(sess.events), {"C14"}, "thread-results")
     run.samples.append({"thread_events_of_one_execution": [(e["th"], e["ev"], e["attr"], e["value"]) for e in log[:60]]})
